@@ -280,6 +280,11 @@ def do_check(prop, meta, tier, seed):
         for s in res.get("selfcheck_failures", []):
             harness_fail.append("reference self-check failed: %s" % s)
 
+    extra_cov = {}
+    if prop == "C19" and not harness_fail:
+        import c19extra
+        c19extra.run(tier, seed, violations, inconclusive, extra_cov, build, base_env, HARNESS, BUILD, GUARD, log)
+
     # ---- verdict
     known_hits = {}
     new_viol = {}
@@ -349,6 +354,7 @@ def do_check(prop, meta, tier, seed):
             "build_s": build_s,
             "worker_wall_s": {m: round(r.get("wall_s", 0), 2) for m, r in results.items()},
         }
+        cov.update(extra_cov)
         ev = {
             "property_id": prop,
             "tier": tier,
